@@ -3,6 +3,7 @@ CONSTANTS
   NoCode = {9}
   Places <- cPlaces
   FirstPlace <- cFirst
+  AltFirst <- cAltFirst
   CondLines = {3}
   FnPlaces <- cFnPlaces
   InsnOk = {50}
